@@ -391,7 +391,12 @@ OPERANDS = [-1, 0, 1, 2, 10, 0xFFFF, 0x10000, 499999999, 500000000, 500000001, (
 def timelock_cases():
     return st.fixed_dictionaries({
         "op": st.sampled_from([177, 178]),
-        "operand": st.one_of(st.sampled_from(OPERANDS), st.integers(-1, 2**32 - 1)),
+        # script numbers of up to 5 bytes are legal operands of CLTV / CSV: the range above 2^32 matters
+        # (CSV reads the disable / type flags and the value out of the low 32 bits; CLTV compares in full)
+        "operand": st.one_of(st.sampled_from(OPERANDS), st.integers(-1, 2**32 - 1),
+                             st.integers(2**32, 2**39 - 1),
+                             st.sampled_from([2**32, 2**32 + 5, 2**32 + (1 << 31), 2**32 + (1 << 22) + 3,
+                                              2**39 - 1, 2**38, 2**32 - 1, 0x180000000])),
         "pad": st.booleans(),
         "ctx": contexts(),
         "below": st.lists(elements(), max_size=2),
@@ -414,6 +419,8 @@ def check_timelock(case, ctx):
         ctx.label("cltv_operand_time_type")
     if n == -1:
         ctx.label("negative_operand")
+    if n >= 2**32:
+        ctx.label(f"{name}_operand>=2^32")
     stack = [bytes(x) for x in case["below"]] + [enc]
     ok, rs, _ = interp.run([op], c, stack, [])
     ctx.label(f"{name}:{'ok' if ok else 'fail'}")
@@ -456,5 +463,6 @@ SUBS = [
     Sub("timelocks", check_timelock, strategy=lambda tier: timelock_cases(),
         budget={"quick": 40000, "thorough": 1000000},
         required=["csv_operand_disable_flag", "csv_operand_time_type", "cltv_operand_time_type",
-                  "negative_operand", "cltv:ok", "cltv:fail", "csv:ok", "csv:fail"]),
+                  "negative_operand", "cltv:ok", "cltv:fail", "csv:ok", "csv:fail",
+                  "csv_operand>=2^32", "cltv_operand>=2^32"]),
 ]
